@@ -1,7 +1,7 @@
 SPECIFICATION Spec
 VIEW View
 CONSTANTS D = 3
-  MaxPages = 6
+  MaxPages = 5
   MaxWriters = 3
   MaxCbs = 0
   MVals = {"-"}
